@@ -54,6 +54,18 @@ CLAIMED = {
          "listed); every SET/POLL layout is generated by the real constructor in its true mode and parsed with the true mode and with "
          "SETPOLL; TLC judges mode, identity and attributes and notes any drift of the implementation from the designed heuristic.",
          "3.6, 4/C17", "TLC design-level evaluation over all SET/POLL definitions + TLC trace validation of SETPOLL parses"),
+ "C03": ("TLC proves the design lemma Build(attributes of Parse(P)) = P on every definition x count x view (spec/UbxBuild.tla); every "
+         "layout is filled, parsed by the real code, the reported values (all, and random subsets) are fed back into the real constructor "
+         "and TLC compares the built payload with UbxBuild!Build of the projected keyword values; raw sweeps of every (type, scale) pair.",
+         "3.5, 4/C03", "TLA+ build-walk spec + TLC trace validation of real constructor calls; design lemma by TLC over all definitions"),
+ "C04": ("Every construction route x addressing form x definition (TLC layouts) and the config helpers are run through the real "
+         "constructor; TLC judges each serialisation with its own Fletcher-8 / WellFormed, the embedded payload and length, agreement of "
+         "the addressing forms and acceptance by UBXReader.parse in the same mode.",
+         "3.6, 4/C04", "TLC trace validation of construct/serialize/re-parse events against the frame spec"),
+ "C15": ("For every definition one attribute of each kind receives ill-fitting values of every Python scalar/container type; TLC judges "
+         "each constructor call: refused with UBXMessageError/UBXTypeError, or encoded exactly as UbxBuild!Build prescribes for the value it "
+         "denotes with no other byte altered and the payload length the definition implies.",
+         "3.5, 4/C15", "TLA+ build-walk spec + TLC trace validation of constructor calls with ill-fitting values"),
 }
 checks = []
 for p in props:
